@@ -42,7 +42,7 @@ def describe(c):
 
 
 def run(ctx):
-    n = 224 if ctx.quick else 1600
+    n = 228 if ctx.quick else 800
     d = ctx.harness("fsm", args=["-n", n] + ARGS)
     if d is None:
         return
